@@ -1,6 +1,7 @@
 package main
 
 import (
+	"go/token"
 	"fmt"
 	"strings"
 
@@ -174,6 +175,18 @@ func orderAgreementRule(P *Program, R *Report) {
 	if fn := mustFunc(P, R, rule, kProofDCC); fn != nil {
 		sorted := false
 		outer := loopOver(fn, is("makeslice"))
+		if outer != nil {
+			// a key list obtained from slices.Sorted is sorted by construction
+			for _, ins := range outer.Header.Instrs {
+				if b, ok := ins.(*ssa.BinOp); ok && b.Op == token.LSS {
+					if c, ok := b.Y.(*ssa.Call); ok && isCallTo(c, "builtin:len") {
+						if sc, ok := c.Call.Args[0].(*ssa.Call); ok && sortedKeysOf(sc) != nil && desc(sortedKeysOf(sc)) == pdRP {
+							sorted = true
+						}
+					}
+				}
+			}
+		}
 		for _, c := range callsIn(fn) {
 			if isCallTo(c, "sort.Ints") && outer != nil {
 				if seq, ok := seqOf(c.Common().Args[0]); ok && seqString(seq) == "[(rangekey("+pdRP+"))*]" {
